@@ -273,10 +273,10 @@ def guard_continue(cont, loop, popped):
     return False
 
 
-def r5_failed_result_pairing(chk):
+def r5_failed_result_pairing(chk, rule='C07.R5'):
     r = cr.infer(chk.model)
     cfg = r.cfg
-    chk.doc('C07.R5', 'FAILED[k]=exc is accompanied by RESULT[k]=failed|missing on the same path; del FAILED[k] is '
+    chk.doc(rule, 'FAILED[k]=exc is accompanied by RESULT[k]=failed|missing on the same path; del FAILED[k] is '
                       'accompanied by removing/overwriting RESULT[k] or by moving k into a work map whose drain '
                       'overwrites RESULT[k] unconditionally')
     drains = drain_summary(r)
@@ -300,7 +300,7 @@ def r5_failed_result_pairing(chk):
                         cr.status_of(cr.subscript_store(b)[2], r.status_consts) in ('failed', 'missing')
                         for b in cand.body):
                     ok = True
-            chk.ob('C07.R5', 'compile/%s[%s]=exc#%d' % (r.failed, k, n), ok, where(r.mod, st),
+            chk.ob(rule, 'compile/%s[%s]=exc#%d' % (r.failed, k, n), ok, where(r.mod, st),
                    'failure recorded without a failed/missing status for the same module')
         for d, kx in cr.del_targets(st):
             if d == r.failed and isinstance(kx, ast.Name):
@@ -319,7 +319,7 @@ def r5_failed_result_pairing(chk):
                     for dd, kk in cr.del_targets(cand):
                         if dd == r.result and _key_is(kk, k):
                             ok = True
-                chk.ob('C07.R5', 'compile/del %s[%s]#%d' % (r.failed, k, n), ok, where(r.mod, st),
+                chk.ob(rule, 'compile/del %s[%s]#%d' % (r.failed, k, n), ok, where(r.mod, st),
                        'failure forgotten but the recorded failed status stays in RESULT (stale status)')
         pc = cr.pop_call(st)
         if pc and pc[0] == r.failed and isinstance(pc[1], ast.Name):
@@ -338,9 +338,29 @@ def r5_failed_result_pairing(chk):
                 for dd, kk in cr.del_targets(cand):
                     if dd == r.result and _key_is(kk, k):
                         ok = True
-            chk.ob('C07.R5', 'compile/%s.pop(%s)#%d' % (r.failed, k, n), ok, where(r.mod, st),
+            chk.ob(rule, 'compile/%s.pop(%s)#%d' % (r.failed, k, n), ok, where(r.mod, st),
                    'failure forgotten but the recorded failed status stays in RESULT (stale status)')
-    chk.floor('C07.R5', 5, '4 FAILED stores + FAILED removals')
+    # removals must use the key variable under which failures are recorded in the same loop nest
+    for st in walk_no_nested(r.fn):
+        removed = [k for d, k in cr.del_targets(st) if d == r.failed]
+        pc = cr.pop_call(st)
+        if pc and pc[0] == r.failed:
+            removed.append(pc[1])
+        for k in removed:
+            loops = cr.enclosing_loops(st, r.fn)
+            outer = loops[-1] if loops else None
+            store_keys = set()
+            for s2 in walk_no_nested(outer) if outer is not None else []:
+                ss = cr.subscript_store(s2)
+                if ss and ss[0] == r.failed:
+                    store_keys.add(norm(ss[1]))
+            lv = loop_var(outer) if outer is not None else None
+            if lv:
+                store_keys.add(lv)
+            ok = norm(k) in store_keys
+            chk.ob(rule, 'compile/remove %s[..]-key(%s)' % (r.failed, norm(k)), ok, where(r.mod, st),
+                   'failure is forgotten under key `%s` but recorded under %s' % (norm(k), sorted(store_keys)))
+    chk.floor(rule, 5, '4 FAILED stores + FAILED removals')
 
 
 def block_of(st):
@@ -627,5 +647,13 @@ def r7_foreign_exceptions(chk):
     chk.floor('C07.R7d', 3, 'table lookups in genNumericOid/getBaseType/genDefVal')
 
 
+def r8_closure_discovery(chk):
+    """Every module reachable through IMPORTS gets a status only if it is discovered: the work list must grow by
+    the complete import list of every analysed module (same rule as C08.R1)."""
+    from rules.C08 import r1_worklist_growth
+    r1_worklist_growth(chk, rule='C07.R8')
+
+
 RULES = [r1_containment, r2_no_package_raise_escapes, r3_status_values, r4_no_silent_drop, r4b_popped_name_accounted,
-         r5_failed_result_pairing, r6_single_writer_site, r7_foreign_exceptions]
+         r5_failed_result_pairing, r6_single_writer_site, r7_foreign_exceptions,
+         r8_closure_discovery]
